@@ -262,6 +262,8 @@ def compare_stats_faults(run, tmp, pair, mbm):
                         continue
                     if not fin:
                         run.fail(case, f'stats hung after a failed {meth}', signature=dict(kind='hang'))
+                        run.hung = True     # worker threads are stuck: no point enumerating further (each would cost a watchdog)
+                        return
                     elif not isinstance(r, BaseException):
                         run.fail(case, f'stats swallowed the failure of {meth} call {k}', signature=dict(kind='swallowed'))
                     elif not real.closed:
